@@ -165,7 +165,7 @@ impl Property for C18 {
         "C18"
     }
     fn rule(&self) -> String {
-        "libraries of 1-6 root-level notes with well-nested heading trees, duplicate and empty headings, block references at top and section level forming trees, DAGs with shared targets and cycles, links in running text (for ranks), occasionally more than 100 headings, and queries from {\"\", heading words, substrings, random strings}; oracle from an independent scan: the set of listed paths (heading texts + note + line of the last heading) equals the set of simple chains that start at a top-level heading of a note nobody includes and step to a direct sub-heading or to a top-level heading of a note included by a block reference lying directly in that section (soundness and completeness at once; headings inside lists and quotes never appear); global_search returns at most 100 entries whose sort keys are exactly the first keys of all paths under the documented order (fuzzy score recomputed with the same matcher crate, then length, then rank; empty query: rank then length), ranks equal the model's backlink counts, workspace/symbol names are the chain texts joined by ' • '; non-trivial = a shared target or a cycle, or more than 100 headings".into()
+        "(each library is judged twice: loaded, and reached through updates of every note from another text) libraries of 1-6 root-level notes with well-nested heading trees, duplicate and empty headings, block references at top and section level forming trees, DAGs with shared targets and cycles, links in running text (for ranks), occasionally more than 100 headings, and queries from {\"\", heading words, substrings, random strings}; oracle from an independent scan: the set of listed paths (heading texts + note + line of the last heading) equals the set of simple chains that start at a top-level heading of a note nobody includes and step to a direct sub-heading or to a top-level heading of a note included by a block reference lying directly in that section (soundness and completeness at once; headings inside lists and quotes never appear); global_search returns at most 100 entries whose sort keys are exactly the first keys of all paths under the documented order (fuzzy score recomputed with the same matcher crate, then length, then rank; empty query: rank then length), ranks equal the model's backlink counts, workspace/symbol names are the chain texts joined by ' • '; non-trivial = a shared target or a cycle, or more than 100 headings".into()
     }
     fn assumptions(&self) -> Vec<String> {
         vec!["fuzzy-matcher 0.3.7 (SkimMatcherV2) is trusted for scores".into(), "heading levels are generated well-nested: how a skipped level nests is C07's business".into()]
@@ -284,7 +284,26 @@ impl Property for C18 {
             (c.iter().map(|i| m.hs[*i].text.clone()).collect(), last.key.clone(), last.line)
         };
         let expected: BTreeSet<(Vec<String>, String, usize)> = expected_chains.iter().map(render).collect();
-        let db = Database::new(api::to_state(&lib), false, api::opts(""));
+        // two doors: a database loaded with the library, and one that reaches the same library
+        // through edits (every note first holds its neighbour's text and is then updated to its
+        // own, last note first; the first note is sent once more unchanged)
+        let fresh = Database::new(api::to_state(&lib), false, api::opts(""));
+        let edited = {
+            let keys: Vec<String> = lib.keys().cloned().collect();
+            let mut shifted = Lib::new();
+            for (i, k) in keys.iter().enumerate() {
+                shifted.insert(k.clone(), lib[&keys[(i + 1) % keys.len()]].clone());
+            }
+            let mut db = Database::new(api::to_state(&shifted), false, api::opts(""));
+            for k in keys.iter().rev() {
+                db.update_document(liwe::model::Key::from_file_name(k), lib[k].clone());
+            }
+            if let Some(k) = keys.first() {
+                db.update_document(liwe::model::Key::from_file_name(k), lib[k].clone());
+            }
+            db
+        };
+        for (door, db) in [("", &fresh), ("history|", &edited)] {
         let g = db.graph();
         let got: BTreeSet<(Vec<String>, String, usize)> = g
             .paths()
@@ -309,7 +328,7 @@ impl Property for C18 {
             let extra: Vec<_> = got.difference(&expected).take(4).collect();
             let kind = if !extra.is_empty() { "unreal-path" } else { "missing-path" };
             return Verdict::fail(
-                format!("c18|{}", kind),
+                format!("c18|{}{}", door, kind),
                 format!("listed paths differ from the model: missing {:?}\nnot real {:?}\n{}", missing, extra, dump(&lib)),
             );
         }
@@ -318,7 +337,7 @@ impl Property for C18 {
         for h in &m.hs {
             if !ends.contains(&(h.key.clone(), h.line)) {
                 return Verdict::fail(
-                    "c18|heading-unlisted",
+                    format!("c18|{}heading-unlisted", door),
                     format!("heading {:?} of note {} (line {}) is the last element of no listed path
 {}", h.text, h.key, h.line, dump(&lib)),
                 );
@@ -339,7 +358,7 @@ impl Property for C18 {
         for q in &case.queries {
             let res = db.global_search(q);
             if res.len() > 100 {
-                return Verdict::fail("c18|more-than-100", format!("query {:?}: {} entries", q, res.len()));
+                return Verdict::fail(format!("c18|{}more-than-100", door), format!("query {:?}: {} entries", q, res.len()));
             }
             let key_of = |text: &str, rank: usize| -> (i64, usize, usize) {
                 let score = if q.is_empty() { 0 } else { matcher.fuzzy_match(text, q).unwrap_or(0) };
@@ -366,13 +385,14 @@ impl Property for C18 {
             if got_keys != all {
                 let first = got_keys.iter().zip(all.iter()).position(|(a, b)| a != b).unwrap_or(got_keys.len().min(all.len()));
                 return Verdict::fail(
-                    "c18|search-order",
+                    format!("c18|{}search-order", door),
                     format!(
                         "query {:?}: result keys differ from the first {} keys of all paths under the documented order at position {}: got {:?}, expected {:?} ({} results, {} expected)\n{}",
                         q, all.len(), first, got_keys.get(first), all.get(first), got_keys.len(), all.len(), dump(&lib)
                     ),
                 );
             }
+        }
         }
         if expected_chains.len() > 100 {
             stats.class("more-than-100-paths");
